@@ -14,8 +14,7 @@ pub proof fn lemma_div_mod_digit(hi: int, lo: int, m: int) // @ob C09 lemma.div_
     requires 0 <= lo < m, 0 <= hi,
     ensures (hi * m + lo) / m == hi, (hi * m + lo) % m == lo,
 {
-    assert((hi * m + lo) / m == hi && (hi * m + lo) % m == lo) by (nonlinear_arith)
-        requires 0 <= lo < m, 0 <= hi;
+    vstd::arithmetic::div_mod::lemma_fundamental_div_mod_converse(hi * m + lo, m, hi, lo);
 }
 pub proof fn lemma_b16_bytes(a: u8, b: u8) // @ob C09 lemma.b16_bytes
     ensures b16((a as int * 256 + b as int) as u16, 0) == a, b16((a as int * 256 + b as int) as u16, 1) == b,
@@ -44,6 +43,15 @@ pub proof fn lemma_b16_value(x: u16) // @ob C09 lemma.b16_value
 pub proof fn lemma_b32_value(x: u32) // @ob C09 lemma.b32_value
     ensures (b32(x, 0) as int) * 16777216 + (b32(x, 1) as int) * 65536 + (b32(x, 2) as int) * 256 + (b32(x, 3) as int) == x,
 {
+    let a = x as int / 256;
+    let b = a / 256;
+    let c = b / 256;
+    assert(x as int == a * 256 + x as int % 256);
+    assert(a == b * 256 + a % 256);
+    assert(b == c * 256 + b % 256);
+    assert(0 <= c < 256);
+    assert(x as int / 65536 == b) by { vstd::arithmetic::div_mod::lemma_div_denominator(x as int, 256, 256); }
+    assert(x as int / 16777216 == c) by { vstd::arithmetic::div_mod::lemma_div_denominator(x as int, 65536, 256); }
 }
 // decoding the encoding of a header gives the header back ...
 pub proof fn lemma_hdr_dec_enc(h: binary::RequestHeader) // @ob C09 lemma.hdr_dec_enc
